@@ -1107,6 +1107,47 @@ fn main() {
                 println!("{}_get={}", key, if db.get(ReadOptions::default(), key.as_bytes()).is_ok() { "found" } else { "missing" });
             }
         }
+        // sched_group_commit_fault : like sched_group_commit, but the write-ahead log starts to fail once both followers are queued: the
+        // log write of their group fails; both must see the error (an acknowledged write that is nowhere is the violation)
+        "sched_group_commit_fault" => {
+            use raindb::{ReadOptions, WriteOptions};
+            let fs = rdbv::faultfs::FaultFs::new();
+            let mut o = raindb::DbOptions::with_memory_env();
+            o.filesystem_provider = std::sync::Arc::new(fs.clone());
+            o.db_path = "db".to_string();
+            o.create_if_missing = true;
+            o.max_memtable_size = 64 * 1024 * 1024;
+            let db = std::sync::Arc::new(raindb::DB::open(o).expect("open"));
+            let fired = std::sync::Arc::new(std::sync::atomic::AtomicBool::new(false));
+            let results: std::sync::Arc<std::sync::Mutex<Vec<(String, bool)>>> = Default::default();
+            let handles: std::sync::Arc<std::sync::Mutex<Vec<std::thread::JoinHandle<()>>>> = Default::default();
+            let (db2, fired2, res2, h2, fs2) = (std::sync::Arc::clone(&db), std::sync::Arc::clone(&fired), std::sync::Arc::clone(&results), std::sync::Arc::clone(&handles), fs.clone());
+            v::set_sched_hook(Some(std::sync::Arc::new(move |name: &str| {
+                if name == "write.after_wal" && !fired2.swap(true, std::sync::atomic::Ordering::SeqCst) {
+                    for (key, len) in [("small", 10usize), ("big", 200usize)] {
+                        let (db3, res3) = (std::sync::Arc::clone(&db2), std::sync::Arc::clone(&res2));
+                        let h = std::thread::spawn(move || {
+                            let r = db3.put(WriteOptions::default(), key.as_bytes().to_vec(), vec![b'x'; len]);
+                            res3.lock().unwrap().push((key.to_string(), r.is_ok()));
+                        });
+                        h2.lock().unwrap().push(h);
+                        std::thread::sleep(std::time::Duration::from_millis(300));
+                    }
+                    fs2.arm(".log", 1, true);
+                }
+            })));
+            db.put(WriteOptions::default(), b"leader".to_vec(), b"1".to_vec()).unwrap();
+            for h in handles.lock().unwrap().drain(..) {
+                let _ = h.join();
+            }
+            v::set_sched_hook(None);
+            fs.disarm();
+            println!("injected_failures={}", fs.failures());
+            for (key, ok) in results.lock().unwrap().iter() {
+                println!("{}_put={}", key, if *ok { "ok" } else { "err" });
+                println!("{}_get={}", key, if db.get(ReadOptions::default(), key.as_bytes()).is_ok() { "found" } else { "missing" });
+            }
+        }
         // sched_get_race : while a get is in its unlocked section, the memtable is rotated and flushed
         "sched_get_race" => {
             use raindb::{ReadOptions, WriteOptions};
